@@ -45,6 +45,11 @@ WHAT = {
         "EndpointIndex.UpdateServiceEndpoints with an empty list deletes the shard but keeps EndpointShards.ServiceAccounts: "
         "after the last endpoint of a service is removed the service keeps the removed workloads' identities, a cold start "
         "has none (pilot/pkg/model/endpointshards.go, DeleteServiceShard preserveKeys)",
+    "order:untargeted-endpoint-pod-lookup-stale":
+        "an endpoint without targetRef at a pod's address gets that pod's identity, labels and locality from the pod cache at "
+        "the time its slice is handled (Controller.getPod -> getPodsByIP) and is never refreshed: neither when the pod becomes "
+        "ready later (nothing is parked in needResync for it) nor when the pod changes or goes away; a cold start whose slice "
+        "events run before the pod events differs from one with the opposite order",
 }
 LOCAL_KNOWN = [{"property_id": "C15", "status": "known", "fingerprint": k, "what": v} for k, v in WHAT.items()]
 
@@ -155,23 +160,53 @@ def theorem_coverage(ctx, ops_path):
             ctx.count("theorem.view-equals-derive")
 
 
-def oracle(ctx, stream, case_lines, rep):
-    """Called on a model/implementation mismatch with the shrunk case: is the property itself violated there?"""
-    p = os.path.join(ctx.work, "%s.oracle.ops" % stream)
+def _oracle_fails(ctx, stream, lines, tag):
+    p = os.path.join(ctx.work, "%s.%s.ops" % (stream, tag))
     with open(p, "w") as f:
-        f.write("\n".join(case_lines) + "\n")
+        f.write("\n".join(lines) + "\n")
     out = p + ".verdict"
+    if os.path.exists(out):
+        os.remove(out)
     rc, log = ctx.harness("oracle", stream, p, out)
     if rc != 0 or not os.path.exists(out):
         return None
     for v in ctx.read_lines(out):
         if v.startswith("FAIL"):
+            return v
+    return None
+
+
+def _full_case(ctx, header, rep):
+    """The unshrunk case a shrunk one came from (the shrinker keeps the `case ...` header line)."""
+    src = (rep or {}).get("source", "")
+    files = []
+    if src.startswith("corpus:"):
+        files.append(os.path.join(os.path.dirname(os.path.dirname(os.path.abspath(__file__))), "harness", "corpus", "C15", src[7:]))
+    files.append(os.path.join(ctx.work, "order.gen.ops"))
+    for fn in files:
+        if os.path.exists(fn):
+            for c in split_cases(ctx.read_lines(fn)):
+                if c and c[0] == header:
+                    return c
+    return None
+
+
+def oracle(ctx, stream, case_lines, rep):
+    """Called on a model/implementation mismatch with the shrunk case: is the property itself violated there - or, since
+    shrinking keeps only what is needed for the first difference, on the case it was shrunk from?"""
+    cands = [("oracle", case_lines)]
+    full = _full_case(ctx, case_lines[0], rep)
+    if full and full != case_lines:
+        cands.append(("oracle-full", full))
+    for tag, lines in cands:
+        v = _oracle_fails(ctx, stream, lines, tag)
+        if v:
             clause = v.split()[1]
             # never a known finding: known findings are reproduced by the model, this input is not
             return ("order:%s:behaviour-outside-the-model" % clause,
                     "the real controller's final state depends on the event order (clause %s) on an input where it also "
                     "departs from the Lean model" % clause,
-                    {"stream": stream, "ops": case_lines, "oracle_verdict": v[:4000], "correspondence": rep})
+                    {"stream": stream, "ops": lines, "oracle_verdict": v[:4000], "correspondence": rep})
     return None
 
 
@@ -197,7 +232,7 @@ def run(ctx):
         return
     if not ctx.go_build():
         return
-    n = ctx.n(1500, 40000)
+    n = ctx.n(1000, 40000)
     ctx.diff_stream("order", n, oracle=oracle)
     # the property itself on the real code, for the corpus and for every generated case
     cdir = os.path.join(os.path.dirname(os.path.dirname(os.path.abspath(__file__))), "harness", "corpus", "C15")
